@@ -195,3 +195,33 @@ def diff_from_pristine():
 
 def slot_names():
     return sorted(k[0] + '.' + k[1] for k in _snap['slots'])
+
+
+def capture():
+    """Copy of the current value of every slot (for E3: take several observations from one state)."""
+    cap = {}
+    owners = {}
+    for owner, oname, attr, val in _slots():
+        cap[(oname, attr)] = _copy(val)
+        owners[oname] = owner
+    return dict(slots=cap, owners=owners, charref=html._charref)
+
+
+def reinstate(cap):
+    """Put the library back into a captured state."""
+    slots = cap['slots']
+    seen = set()
+    for owner, oname, attr, val in _slots():
+        key = (oname, attr)
+        seen.add(key)
+        if key not in slots:
+            delattr(owner, attr)
+            continue
+        want = slots[key]
+        if val is want:
+            continue
+        setattr(owner, attr, _copy(want))
+    for key, want in slots.items():
+        if key not in seen:
+            setattr(cap['owners'][key[0]], key[1], _copy(want))
+    html._charref = cap['charref']
